@@ -520,7 +520,9 @@ func C20(run *core.Run) {
 		}
 
 		// ---- replay with the invariant at every boundary
-		replay := func(model *fsModel, events []sysEvent, final map[string][]byte, tag string) (boundaries int) {
+		// replay returns what the model saw; the caller reports it only when the model reproduces the real final
+		// state of that run (a model that lost track of a descriptor says nothing about the program)
+		replay := func(model *fsModel, events []sysEvent, final map[string][]byte, tag string) (boundaries int, pending []c20Violation) {
 			get := func(rel string) ([]byte, bool) { return model.content(filepath.Join(model.root, rel)) }
 			check := func(mode, boundary string, idx int) {
 				run.Eval()
@@ -532,7 +534,7 @@ func C20(run *core.Run) {
 							tail = append(tail, core.Trunc(decodeForHumans(events[j]), 200))
 						}
 					}
-					report(c20Violation{Case: c.Name, Args: c.Args, Input: f, Mode: tag + mode, Boundary: boundary, State: describeState(get, f, orig[f], final[f]), Trace: tail})
+					pending = append(pending, c20Violation{Case: c.Name, Args: c.Args, Input: f, Mode: tag + mode, Boundary: boundary, State: describeState(get, f, orig[f], final[f]), Trace: tail})
 				}
 			}
 			for i, e := range events {
@@ -565,10 +567,15 @@ func C20(run *core.Run) {
 				states[snapshotDigest(model.snapshot())] = true
 				mu.Unlock()
 			}
-			return boundaries
+			return boundaries, pending
 		}
-		nb := replay(model, events, final, "")
+		nb, pend := replay(model, events, final, "")
 		run.CountN("crash_boundaries", int64(nb))
+		if len(model.gaps) == 0 && snapshotEqual(model.snapshot(), finalSnap) {
+			for _, v := range pend {
+				report(v)
+			}
+		}
 		if len(model.gaps) > 0 || !snapshotEqual(model.snapshot(), finalSnap) {
 			// the model does not reproduce the real final state: whatever it said is not trusted
 			run.Inconclusive()
@@ -648,7 +655,12 @@ func C20(run *core.Run) {
 				}
 				run.Count(sc + "_error_runs:" + errno)
 				efinalSnap, _ := diskSnapshot(eroot)
-				replay(emodel, evs, final, sc+"-error-")
+				_, epend := replay(emodel, evs, final, sc+"-error-")
+				if len(emodel.gaps) == 0 && snapshotEqual(emodel.snapshot(), efinalSnap) {
+					for _, v := range epend {
+						report(v)
+					}
+				}
 				if len(emodel.gaps) > 0 || !snapshotEqual(emodel.snapshot(), efinalSnap) {
 					run.Inconclusive()
 					run.Count("model_fidelity_mismatch")
